@@ -107,6 +107,9 @@ def run(chk, ctx) -> None:
                'every removal is paired with an add or a preceding _produce_cards', got=bad[1] if bad else f'{n_events} card movements')
     chk.floor('C06.move', 6)
 
+    from .helpers import known_card_helpers, shuffled_helper
+    known_card_helpers(chk, ctx, 'C06.helpers')
+    shuffled_helper(chk, ctx, 'C06.helpers')
     _consume_produce(chk, ctx)
     _reserved(chk, ctx)
     _engine_cards(chk, ctx)
@@ -196,7 +199,10 @@ def _consume_produce(chk, ctx) -> None:
         ok = arg == T.spec('shuffled(self.reserved_cards)')
         for e in p.events[k:]:
             if e.kind == 'write' and e.op == 'call:clear' and place(e.term):
-                cleared.add(place(e.term))
+                if place(e.term) == 'discarded_cards' and unversion(e.term) != ('elem', ('self', 'discarded_cards')):
+                    cleared.add('discarded_cards (one street only)')
+                else:
+                    cleared.add(place(e.term))
     chk.ob('C06.consume', 'State._consume_cards:replenish', ok and cleared == {'burn_cards', 'mucked_cards', 'discarded_cards'}, fi.loc,
            'when the deck cannot cover the cards, the (shuffled) reserve is produced into the deck and exactly the reserve piles are emptied',
            got=sorted(cleared), want=['burn_cards', 'discarded_cards', 'mucked_cards'])
